@@ -43,6 +43,17 @@ End Rows.
 Arguments w_resid {P}. Arguments w_resname {P}. Arguments w_name {P}. Arguments w_idx {P}. Arguments w_pos {P}.
 Arguments number {P}. Arguments gro_rows {P}.
 
+(* ---- _compute_box_size: mass of an atom = the mass given in [ atoms ] when there is one
+   (whatever its value, 0 for virtual sites included), else the mass of its atom type; neither
+   is an error ---- *)
+Definition atom_mass {M : Type} (explicit type_mass : option M) : option M :=
+  match explicit with Some m => Some m | None => type_mass end.
+Fixpoint total_mass {M : Type} (add : M -> M -> M) (zero : M) (atoms : list (option M * option M)) : option M :=
+  match atoms with
+  | [] => Some zero
+  | (e, t) :: r => match atom_mass e t, total_mass add zero r with Some m, Some s => Some (add m s) | _, _ => None end
+  end.
+
 (* ---- BuildSystem._compose_system: molecules are visited in order; one already fully
    positioned is skipped; otherwise attempts are made until one succeeds (the oracle says
    which); the index only advances past a positioned molecule ---- *)
